@@ -345,6 +345,10 @@ class Joiner:
             if isinstance(x, View) and x.src[0] == 'reg' and (y is None or (isinstance(y, int) and not isinstance(y, bool))) \
                     and sx.lookup.get(x.src) == 'hit' and sy.lookup.get(x.src) == 'miss' and x.key()[1:] == (0, 0, 0, None):
                 return Maybe(x, y)
+            # ... or the raw operand itself where the lookup was skipped (except KeyError: pass)
+            if isinstance(x, View) and x.src[0] == 'reg' and isinstance(y, Param) and y.name == x.src[1] \
+                    and sx.lookup.get(x.src) == 'hit' and sy.lookup.get(x.src) == 'miss' and x.key()[1:] == (0, 0, 0, None):
+                return Maybe(x, y)
         if isinstance(va, list) and isinstance(vb, list) and len(va) == len(vb):
             return [self.join_value(x, y, a, b) for x, y in zip(va, vb)]
         return TOP
